@@ -382,6 +382,9 @@ func MutateTRC(r *vgen.Rand, t TRC, k int) (TRC, string) {
 		}
 		self := t.Certs[i].Subject == t.Certs[i].Issuer
 		t.Certs[i].Subject.IA.ISD = t.ISD + 1
+		if t.ISD >= 65535 {
+			t.Certs[i].Subject.IA.ISD = t.ISD - 1
+		}
 		if self {
 			t.Certs[i].Issuer = t.Certs[i].Subject
 		}
@@ -474,4 +477,113 @@ func insertAt(cs []Cert, i int, c Cert) []Cert {
 	out := append([]Cert{}, cs[:i]...)
 	out = append(out, c)
 	return append(out, cs[i:]...)
+}
+
+// Boundaries is the number of boundary payloads Boundary knows.
+const Boundaries = 30
+
+const (
+	MaxISD   = 65535
+	MaxAS    = 1<<48 - 1
+	maxInt63 = 1<<63 - 1
+	// last second of year 9999 / first second of year 1 relative to T0 (GeneralizedTime range)
+	endOfTime = 253402300799 - T0
+)
+
+// Boundary returns a VALID payload sitting on boundary k of a documented
+// range (ISD 1..65535, base/serial 1..2^63-1, quorum, grace period, validity,
+// AS numbers 1..2^48-1, description length, vote indices).
+func Boundary(r *vgen.Rand, k int) (TRC, string) {
+	isd := uint64(1)
+	switch k {
+	case 0, 4, 8, 12, 16, 20, 24:
+		isd = 1
+	case 1, 5, 9, 13, 17, 21, 25:
+		isd = 2
+	case 2, 6, 10, 14, 18, 22, 26:
+		isd = MaxISD - 1
+	default:
+		isd = MaxISD
+	}
+	base := k%8 < 4
+	t := GenTRC(r, isd, base, RandShape(r), 0)
+	what := fmt.Sprintf("isd-%d", isd)
+	setSerial := func(b, s uint64) {
+		t.Base, t.Serial = b, s
+		if b == s {
+			t.Grace, t.Votes = 0, nil
+		}
+	}
+	widen := func() {
+		for i := range t.Certs {
+			t.Certs[i].NB, t.Certs[i].NA = t.NB, t.NA
+		}
+	}
+	switch k {
+	case 0, 1, 2, 3:
+		setSerial(1, 1)
+		what += "+base-serial-1"
+	case 4, 5, 6, 7:
+		setSerial(1, 2)
+		t.Grace = 0
+		what += "+serial-2-grace-0"
+	case 8, 9:
+		setSerial(maxInt63, maxInt63)
+		what += "+base-serial-max"
+	case 10, 11:
+		setSerial(1<<31, 1<<31)
+		what += "+base-serial-2^31"
+	case 12, 13:
+		setSerial(1, maxInt63)
+		t.Grace = 9000000000
+		what += "+serial-max-grace-large"
+	case 14, 15:
+		setSerial(maxInt63-1, maxInt63)
+		t.Grace = 1
+		t.Votes = []int64{0, maxInt63, -1 << 63}
+		what += "+base-max-1-vote-indices-extreme"
+	case 16, 17, 18, 19:
+		t.Quorum = 1
+		t.NB, t.NA = -T0, endOfTime
+		widen()
+		what += "+quorum-1-validity-epoch-to-9999"
+	case 20, 21, 22, 23:
+		m := 0
+		n := 0
+		for _, c := range t.Certs {
+			switch classOf(c) {
+			case 1:
+				m++
+			case 2:
+				n++
+			}
+		}
+		if n < m {
+			m = n
+		}
+		t.Quorum = int64(m)
+		t.NA = t.NB + 1
+		widen()
+		t.Core = []uint64{1, MaxAS, 1<<32 - 1, 1 << 32}
+		t.Auth = []uint64{MaxAS}
+		what += "+quorum-max-validity-1s-as-boundaries"
+	default:
+		t.Description = string(make([]rune, 0))
+		for len(t.Description) < 1024 {
+			t.Description += "0123456789abcdef"
+		}
+		t.Core = []uint64{MaxAS, 1}
+		t.Auth = []uint64{1}
+		for i := range t.Certs {
+			if t.Certs[i].Subject.IA.Kind == 2 {
+				self := t.Certs[i].Subject == t.Certs[i].Issuer
+				t.Certs[i].Subject.IA.AS = vgen.Pick(r, uint64(1), MaxAS, 1<<32-1, 1<<32)
+				if self {
+					t.Certs[i].Issuer = t.Certs[i].Subject
+				}
+			}
+		}
+		what += "+description-1024-cert-as-boundaries"
+	}
+	return t, what
 }
